@@ -2,6 +2,9 @@
 
 from __future__ import annotations
 
+import json
+import random
+
 from typing import Any
 
 from hypothesis import strategies as st
@@ -58,10 +61,36 @@ def path_shape(tok: PathToken) -> list[Any]:
     return [path_shape(s) if isinstance(s, PathToken) else s for s in tok.path]
 
 
+def _shorthand(x: Any, rnd: Any) -> None:
+    """Rewrite some non-negative index segments `[0]` as `.0` (Environment.shorthand_indexes)."""
+    if isinstance(x, dict):
+        for v in x.values():
+            _shorthand(v, rnd)
+    elif isinstance(x, list):
+        if len(x) == 3 and x[0] == "path" and isinstance(x[2], list):
+            for seg in x[2]:
+                if isinstance(seg, list) and len(seg) == 2 and seg[0] == "i" and isinstance(seg[1], int) \
+                        and seg[1] >= 0 and rnd.random() < 0.6:
+                    seg[0] = "si"
+        for v in x:
+            _shorthand(v, rnd)
+
+
+SHORTHAND_SEEDS = [
+    "{{ a.0 }}", "{{ a.b.0 }}|{{ a.0.b }}", "{{ a[b.0] }}{{ a.0[1].2 }}", "{% for x in a.0 %}{{ x.1 }}{% endfor %}",
+    "{% if a.0 == b.1 %}{{ a.0 | append: b.1 }}{% endif %}", "{{ a.0, b.1 | join: a.2 }}", "{{ (a.0..b.1) }}",
+    "{% assign v = a.b.0 %}{% echo v.0 %}{% liquid echo a.0\nassign w = a.1.2 %}",
+]
+
+
 @st.composite
 def prog_source(draw: Any) -> dict[str, Any]:
     prog = draw(program_strategy(PROG_CFG))
     lay = draw(st.integers(0, 50))
+    shorthand = draw(st.integers(0, 3)) == 0
+    if shorthand:
+        prog = json.loads(json.dumps(prog))
+        _shorthand(prog, random.Random(lay))
     src = to_source(prog["main"], lay)
     r = draw(st.integers(0, 9))
     if r < 3 and src:
@@ -76,7 +105,7 @@ def prog_source(draw: Any) -> dict[str, Any]:
         else:
             src = src[pos:]
     return {"kind": "text", "src": src, "templates": {k: to_source(v, lay) for k, v in prog["templates"].items()},
-            "data": {}, "origin": "program"}
+            "data": {}, "origin": "program", "shorthand": shorthand}
 
 
 class C17(Prop):
@@ -106,6 +135,8 @@ class C17(Prop):
         for t in corpus():
             yield {"kind": "text", "src": t["template"], "data": {}, "templates": t.get("templates") or {},
                    "origin": "corpus"}
+        for src in SHORTHAND_SEEDS:
+            yield {"kind": "text", "src": src, "data": {}, "templates": {}, "origin": "shorthand", "shorthand": True}
 
     def budget_s(self, tier: str) -> float:
         return 240 if tier == "quick" else 3000
@@ -133,7 +164,8 @@ class C17(Prop):
         n = len(src)
         templates = dict(PARTIALS)
         templates.update(case.get("templates") or {})
-        env = make_env(templates, shopify=True)
+        self._shorthand_case = bool(case.get("shorthand"))
+        env = make_env(templates, shopify=True, shorthand=self._shorthand_case)
         markup_seen = 0
 
         # ---- 1. tokenize
@@ -318,7 +350,7 @@ class C17(Prop):
             p = stop
 
     def _check_path(self, tok: PathToken, seg: str, src: str, res: Result) -> None:
-        env = make_env({}, shopify=True)
+        env = make_env({}, shopify=True, shorthand=self._shorthand_case)
         try:
             toks = tokenize(env, "{{ " + seg + " }}")
             inner = toks[0].expression if toks and isinstance(toks[0], OutputToken) else []
